@@ -44,7 +44,10 @@ class Frames:
                     isinstance(r2, list) and len(r2) == 2:
                 self.prefix1.append((h, r1[0][0]))
                 continue
-            if r1 == [] and lp.run(h + o + "\n" + o) == [("GENERAL", o)]:
+            # a comment head swallows the text after it up to the end of the
+            # program (that it stops at the end of its line is the law
+            # checked on it, not part of the discovery)
+            if r1 == [] and r2 == [] and lp.run(o) != []:
                 self.comment.append(h)
 
 
